@@ -250,7 +250,7 @@ def gen_script(rng, max_ops, profile):
                 c = rng.pick(acand)
                 if c not in asg:
                     asg.append(c)
-            rcand = [] if deps else [p for p in sorted(have) if is_static(p) and p not in padd and p not in asg]
+            rcand = [] if (deps and depth) else [p for p in sorted(have) if is_static(p) and p not in padd and p not in asg]
             if not depth and asg:
                 # immediate edit: a removal may also name a component the entity does not own -- a dependent that arrives with an
                 # assigned master (it stays, default-constructed) or something unrelated (nothing happens)
